@@ -40,6 +40,8 @@ var Compressions = []Compression{
 	{pwr.CompressionAlgorithm_NONE, 0},
 	{pwr.CompressionAlgorithm_GZIP, 1}, {pwr.CompressionAlgorithm_GZIP, 6}, {pwr.CompressionAlgorithm_GZIP, 9},
 	{pwr.CompressionAlgorithm_BROTLI, 1}, {pwr.CompressionAlgorithm_BROTLI, 6}, {pwr.CompressionAlgorithm_BROTLI, 9},
+	// quality 0 is a legal setting of both algorithms (kept at the end: callers index the first seven)
+	{pwr.CompressionAlgorithm_GZIP, 0}, {pwr.CompressionAlgorithm_BROTLI, 0},
 }
 
 func Walk(dir string) (*tlc.Container, error) { return tlc.WalkAny(dir, tlc.WalkOpts{}) }
